@@ -460,7 +460,22 @@ func healthStream(cfg *Config) *hx.Stats {
 		sd, sc, sb := storageState(hw.ps, hw.ledger, diff)
 		w.L("STO d=%s c=%s b=%s", heapLine(sd), heapLine(sc), heapLine(sb))
 		w.L("ITER label=%s", label)
+		wantIDs, wantNotFound, predicted := expectedYield(hw.ps, hw.ledger)
+		cacheBefore, deltasBefore := atree.VerifCache(hw.ps), atree.VerifDeltas(hw.ps)
 		it, err := hw.ps.SlabIterator()
+		// slab iteration reads: neither the cache nor the write set changes (the slabs it fetches are not cached)
+		if !sameSlabObjects(cacheBefore, atree.VerifCache(hw.ps)) {
+			viol(prog, fmt.Sprintf("slab iteration changed the read cache: %d entries before, %d after (%s)", len(cacheBefore), len(atree.VerifCache(hw.ps)), label), "")
+		}
+		if !sameSlabObjects(deltasBefore, atree.VerifDeltas(hw.ps)) {
+			viol(prog, fmt.Sprintf("slab iteration changed the write set (%s)", label), "")
+		}
+		if predicted && wantNotFound && (err == nil || !strings.HasPrefix(hx.ErrKind(err), "SlabNotFound:")) {
+			viol(prog, fmt.Sprintf("slab iteration met a reference to a slab that is in no layer of the storage and did not fail with SlabNotFound (%s): %v", label, err), "")
+		}
+		if predicted && !wantNotFound && err != nil {
+			viol(prog, fmt.Sprintf("slab iteration failed although every reference it has to follow resolves (%s): %v", label, err), "")
+		}
 		if err != nil {
 			k := "Other"
 			if strings.HasPrefix(hx.ErrKind(err), "SlabNotFound:") {
@@ -478,6 +493,11 @@ func healthStream(cfg *Config) *hx.Stats {
 			}
 			hx.SortIDs(ids)
 			w.L("OBS ok:%s", strings.Join(idStrs(ids), ","))
+			// model-free: exactly the loaded slabs plus what hangs below them in the ledger, by the
+			// harness's own walk over write set, cache and registers
+			if predicted && !wantNotFound && strings.Join(idStrs(ids), ",") != strings.Join(idStrs(wantIDs), ",") {
+				viol(prog, fmt.Sprintf("slab iterator yielded %v, the loaded slabs and the registers below them are %v (%s)", idStrs(ids), idStrs(wantIDs), label), "")
+			}
 			// model-free: every live loaded slab is yielded exactly once; with everything loaded
 			// nothing else is yielded
 			n := map[atree.SlabID]int{}
